@@ -126,6 +126,16 @@ def virtual_time(loop):
 def run(coro_fn, t0=1000.0):
     """Run coro_fn(loop) on a fresh VLoop with time.monotonic patched; returns its result."""
     loop = VLoop(t0)
+    # geckolib keeps one module-global future for 'the configuration changed' and mutates one module-global timing table: a fresh
+    # process starts with neither; every run here starts the same way (a future of an earlier, closed loop must not leak in)
+    try:
+        import geckolib.config as _C
+        _C.ConfigChange = None
+        _idle = _C._GeckoIdleConfig()
+        for _m in _C.CONFIG_MEMBERS:
+            setattr(_C.GeckoConfig, _m, getattr(_idle, _m))
+    except Exception:  # noqa
+        pass
     asyncio.set_event_loop(loop)
     try:
         with virtual_time(loop):
